@@ -4,7 +4,7 @@ from .. import c09_gen as G
 
 CLAIM = dict(
     technique="runtime monitoring of generated programs: the same numeric call under many type configurations (differential) + NumPy reference + three builds compared line by line; sanitizers on",
-    text="Generated translation units (programs drawn from VERIF_SEED, restricted to the compile-probed allow-list vf/c09_supported.json) make the same index-function / view / eval call with shape-like arguments as compile-time constants, literals, clipped, fixed, raw, tuple, bounded, hybrid, dynamic and maybe containers and mixed pairs, with array operands as the 15 ndarray_t kinds, their column-major twins, raw/nested/fixed/hybrid/dynamic arrays, and with the whole call evaluated in a constant expression; every configuration's normalised (has_value, shape, elements) is compared with an independent NumPy model over the baked value sets, every shape admitted by the clipped bounds and seeded samples; asan(gcc+STL)/clang/nostl builds of one program are compared record by record. Sampled product of configurations x values: held-on-observed.",
+    text="Generated translation units (programs drawn from VERIF_SEED, restricted to the compile-probed allow-list vf/c09_supported.json) make the same index-function / view / eval call with shape-like arguments as compile-time constants, literals, clipped, fixed, raw, tuple, bounded, hybrid, dynamic and maybe containers and mixed pairs, with array operands as the 15 ndarray_t kinds, their column-major twins, raw/nested/fixed/hybrid/dynamic arrays, and with the whole call evaluated in a constant expression; every configuration's normalised (has_value, shape, elements) is compared with an independent NumPy model over the baked value sets, every shape admitted by the clipped bounds and seeded samples; asan(gcc+STL)/clang/nostl builds of one program are compared record by record. Besides single views and their evaluation, 14 composite operations (view of a view, depth 2 and 3: sum/cumsum/transpose/reshape/slice/flatten/add/multiply/tile over tile, repeat, pad, broadcast_to, concatenate, sum, add) are generated in every tier over the fixed / hybrid / clipped / raw / nested array kinds with run-time inner arguments: the lazy composite and its single evaluation must both equal NumPy. Sampled product of configurations x values: held-on-observed.",
     note="Trusted: NumPy / Python as the reference, the allow-list (combinations the library does not compile are not generated; a program that stops compiling is inconclusive, not a violation), ASan+UBSan+_GLIBCXX_ASSERTIONS builds. Element type of array operands is int only; LeakSanitizer is off in the nostl build (utl::maybe leak belongs to C19).",
     ref="DESIGN.md 3, 4/C09")
 TARGETS_QUICK = [CR.quick_targets_seed0]
